@@ -53,9 +53,15 @@ func (x *X) File(rel string) *ast.File {
 		x.fail("cannot parse %s: %v", rel, err)
 		f = &ast.File{}
 	}
+	if !noCanon {
+		canonFile(rel, f) // locals back to their pinned names (canon.go)
+	}
 	x.files[rel] = f
 	return f
 }
+
+// noCanon: parse without the α-renaming (only for `-pinlocals`, which writes the table it uses).
+var noCanon bool
 
 // Func finds a function or method by name (recv == "" for plain functions; otherwise the receiver type name).
 func (x *X) Func(rel, recv, name string) *ast.FuncDecl {
@@ -72,6 +78,16 @@ func (x *X) Func(rel, recv, name string) *ast.FuncDecl {
 		}
 	}
 	x.fail("%s: function %s.%s not found", rel, recv, name)
+	return nil
+}
+
+// funcQuiet is Func without the failure record (for optional helpers).
+func (x *X) funcQuiet(rel, recv, name string) *ast.FuncDecl {
+	for _, d := range x.File(rel).Decls {
+		if fd, ok := d.(*ast.FuncDecl); ok && fd.Name.Name == name && fd.Body != nil && fd.Recv != nil && len(fd.Recv.List) == 1 && recvName(fd.Recv.List[0].Type) == recv {
+			return fd
+		}
+	}
 	return nil
 }
 
@@ -163,7 +179,10 @@ func main() {
 	repo := flag.String("repo", "/repo", "repository root")
 	out := flag.String("out", "", "directory for Gen/*.lean")
 	facts := flag.String("facts", "", "facts.json output")
+	pinl := flag.Bool("pinlocals", false, "print pinlocals.go (the local names of the pinned tree) and exit")
 	flag.Parse()
+	noCanon = *pinl
+	allFiles := map[string]*ast.File{}
 	res := map[string]any{}
 	var unrec, changed []string
 	why := map[string]string{}
@@ -179,6 +198,9 @@ func main() {
 			}()
 			m.Run(x)
 		}()
+		for r, f := range x.files {
+			allFiles[r] = f
+		}
 		rec := len(x.why) == 0
 		var sb strings.Builder
 		fmt.Fprintf(&sb, "/-! GENERATED by /verif/extract from the Go sources on every run — do not edit. -/\nnamespace MdsVerif.Gen.%s\n\n", m.Name)
@@ -203,6 +225,10 @@ func main() {
 				changed = append(changed, m.Name)
 			}
 		}
+	}
+	if *pinl {
+		fmt.Print(dumpPinLocals(allFiles))
+		return
 	}
 	res["unrecognised"] = unrec
 	res["why"] = why
